@@ -11,7 +11,7 @@ scheds = []
 for cfg, (inline, interval) in sorted(m.SIMS.items()):
     hs, _ = T.simulate_hists(ctx, d, "MC_Log.tla", cfg, num=8, depth=45, seed=ctx.seed, timeout=600)
     for j, h in enumerate(hs):
-        scheds.append({"inline": inline, "interval": interval, "cache": j % 2 == 0, "sync": cfg not in m.ASYNC_SIMS, "mbs": m.MBS, "steps": h})
+        scheds.append({"inline": inline, "interval": interval, "cache": j % 2 == 0, "sync": cfg not in m.ASYNC_SIMS, "cancel": j % 3 == 2, "mbs": m.MBS, "steps": h})
 print(len(scheds), "schedules")
 rows, hits = m.harness(ctx, scheds, "dev")
 print(len(rows), "rows", hits)
